@@ -17,7 +17,10 @@ RULE = ('cases = programs of def/use statements built over the 13 value types: (
         'and two intermediate definitions over 44 link kinds x every use context; (order) 2- and 3-statement programs '
         'over all phase combinations and all file orders; (dup) double definitions and redefinition of every builtin; '
         '(cd) paths relative the current directory referenced before/after cd; (rand) seeded programs of 2..7 '
-        'statements. class key = (part, defined type, link kinds, context, placement / phases / file order, verdict '
+        'statements. Logic symbols are observed through what they do: transformers/matchers via the contents of '
+        '`file f = TEXT -transformed-by ...`, programs via the probe argv, text-sources via file contents, '
+        'files-sources via a dump of the created tree, file/files matchers and conditions via assertions whose '
+        'expected truth the reference computes. class key = (part, defined type, link kinds, context, placement / phases / file order, verdict '
         '[, reason, context of the offending reference]); a case is non-trivial when the CLI returned and either the '
         'rejection + absence of every effect, or the complete probe trace (argv, stdin = file contents, cwd) was '
         'compared with the reference interpreter')
@@ -36,21 +39,24 @@ ASSUMPTIONS = [
     '[cleanup] is outside the quantifier, DESIGN 3/C08); no [conf]; `cd` only in the small "cd" part, where paths '
     'relative the current directory are referenced directly by use statements (what "referenced" means for a symbol '
     'built from such a path is left open by the manual)',
-    'logic values are kept to a literal subset (regexes of plain characters, integer literals, upper/lower/filter/'
-    'grep/replace/identity) so that the reference evaluation is beyond doubt; file-matcher, files-matcher, '
-    'files-condition and files-source symbols are type-checked in every context but not evaluated',
+    'logic values are kept to a literal subset (regexes and file names of plain characters, integer literals, '
+    'upper/lower/filter/grep/replace/identity, type/name/contents/dir-contents, is-empty/num-files/every|any file/'
+    'matches, literal files-conditions and files-sources without +=) so that the reference evaluation is beyond '
+    'doubt; constructs that end in HARD_ERROR (contents of a directory, creating an existing path) are not generated',
     'tokens are wholly naked, wholly soft-quoted or wholly hard-quoted (mixed quoting is C09/S8); no `#` (S7)',
 ]
 EXHAUSTIVE_NOTE = ('matrix (16 definition kinds + 4 builtin/undefined x 35 contexts x 7 placements), chain (all directly '
                    'well-typed chains of <= 2 intermediates over 44 link kinds, each with all 35 use contexts), order '
                    '(4 types x all phase pairs/triples x all file orders), dup and cd are enumerated completely in both '
                    'tiers')
-MIN_OBS = {'quick': {'evaluations': 9000, 'c08.rejections_checked': 7000, 'c08.no_effect_checked': 7000,
-                     'c08.accepted_traces_compared': 1600, 'c08.argv_records_compared': 6000,
-                     'c08.file_contents_compared': 900, 'c08.indirect_rejections': 100, 'classes': 7000},
-           'thorough': {'evaluations': 40000, 'c08.rejections_checked': 25000, 'c08.no_effect_checked': 25000,
-                        'c08.accepted_traces_compared': 15000, 'c08.argv_records_compared': 50000,
-                        'c08.file_contents_compared': 6000, 'c08.indirect_rejections': 300, 'classes': 7000}}
+MIN_OBS = {'quick': {'evaluations': 10000, 'c08.rejections_checked': 8500, 'c08.no_effect_checked': 8500,
+                     'c08.accepted_traces_compared': 1800, 'c08.argv_records_compared': 9000,
+                     'c08.file_contents_compared': 1500, 'c08.directory_trees_compared': 250,
+                     'c08.indirect_rejections': 150, 'classes': 9000},
+           'thorough': {'evaluations': 45000, 'c08.rejections_checked': 28000, 'c08.no_effect_checked': 28000,
+                        'c08.accepted_traces_compared': 15000, 'c08.argv_records_compared': 60000,
+                        'c08.file_contents_compared': 8000, 'c08.directory_trees_compared': 1200,
+                        'c08.indirect_rejections': 400, 'classes': 10000}}
 _HDS_ROOTS = {'home', 'act-home'}
 
 
@@ -69,7 +75,7 @@ def _known_regex_of_home_path(v):
 
 KNOWN = {'regex_of_home_path_internal_error': _known_regex_of_home_path}
 
-N_RAND = {'quick': 2000, 'thorough': 50000}
+N_RAND = {'quick': 1600, 'thorough': 50000}
 
 
 # =============================================================================================================
@@ -121,6 +127,18 @@ def filest(uid, ts, rel=None):
 
 def runst(pg):
     return {'k': 'run', 'pg': pg}
+
+
+def dirst(uid, fs):
+    return {'k': 'dir', 'id': uid, 'fs': fs}
+
+
+def fmst(uid, on, fm):
+    return {'k': 'fm', 'id': uid, 'on': on, 'fm': fm}
+
+
+def fsmst(uid, fsm):
+    return {'k': 'fsm', 'id': uid, 'fsm': fsm}
 
 
 def TEXT_TOK():
@@ -197,6 +215,7 @@ def _ctx_table():
     c['path-suffix-tail'] = lambda X, k: [defn('path', y(k), {'rel': 'act', 'name': N(T('n/'), R(X))}),
                                           args(k, [N(R(y(k)))])]
     c['creat'] = lambda X, k: [filest(k, ['str', S(T('c' + k)), None], rel=X)]
+    c['creat-only'] = lambda X, k: [dict(filest(k, ['str', S(T('c' + k)), None], rel=X), quiet=True)]
     c['int'] = lambda X, k: [filest(k, text_via(['filter', ['line-num', ['cmp', '==', N(R(X))]]]))]
     c['ts-ref'] = lambda X, k: [filest(k, ['ref', X, 'a', None])]
     c['ts-ref-tt'] = lambda X, k: [filest(k, ['ref', X, 'a', ['upper']])]
@@ -214,6 +233,18 @@ def _ctx_table():
     c['files-matcher'] = lambda X, k: [defn('file-matcher', y(k), ['dir-contents', ref(X, 'a')])]
     c['files-condition'] = lambda X, k: [defn('files-matcher', y(k), ['fmatches', ref(X)])]
     c['files-source'] = lambda X, k: [defn('files-source', y(k), ['lit', [['dir', N(T('sub')), ref(X)]]])]
+    c['files-source-eval'] = lambda X, k: [dirst(k, ['lit', [['file', N(T('top')), None], ['dir', N(T('sub')), ref(X)]]])]
+    c['fs-ts-eval'] = lambda X, k: [dirst(k, ['lit', [['file', N(T('d/leaf')), ['ref', X, 'a', None]]]])]
+    c['fs-name-eval'] = lambda X, k: [dirst(k, ['lit', [['dir', S(T('pre-'), R(X)), None]]])]
+    # evaluated by assertions: only in [assert]
+    c['file-matcher-eval'] = lambda X, k: [fmst(k, 'a.txt', ref(X))]
+    c['file-matcher-eval-dir'] = lambda X, k: [fmst(k, 'sub', ['or', [ref(X, 'a'), ['type', 'file']]])]
+    c['files-matcher-eval'] = lambda X, k: [fsmst(k, ref(X))]
+    c['files-matcher-eval-sub'] = lambda X, k: [fmst(k, 'e', ['dir-contents', ref(X, 'a')])]
+    c['files-condition-eval'] = lambda X, k: [fsmst(k, ['fmatches', ref(X)])]
+    c['fc-fm-eval'] = lambda X, k: [fsmst(k, ['fmatches', ['lit', [[N(T('a.txt')), ref(X)], [N(T('sub')), None]]]])]
+    c['text-matcher-eval'] = lambda X, k: [{'k': 'tm', 'id': k, 'tm': ref(X)}]
+    c['integer-matcher-eval'] = lambda X, k: [{'k': 'im', 'im': ['or', [ref(X), ['cmp', '==', N(T('99'))]]]}]
     c['pgmname'] = lambda X, k: [defn('program', y(k), ['sys', N(R(X)), []])]
     c['fc-name'] = lambda X, k: [defn('files-condition', y(k), ['lit', [[N(R(X)), ['type', 'file']]]])]
     c['fs-ts'] = lambda X, k: [defn('files-source', y(k), ['lit', [['file', N(T('fa')), ['ref', X, 'a', None]]]])]
@@ -222,6 +253,8 @@ def _ctx_table():
 
 CONTEXTS = _ctx_table()
 CONTEXT_NAMES = tuple(CONTEXTS)
+ASSERT_ONLY = ('file-matcher-eval', 'file-matcher-eval-dir', 'files-matcher-eval', 'files-matcher-eval-sub',
+               'files-condition-eval', 'fc-fm-eval', 'text-matcher-eval', 'integer-matcher-eval')
 ACT_CONTEXTS = ('arg-soft', 'arg-naked', 'arg-elem', 'arg-eol', 'program')  # statement kinds that can be the [act] program
 
 # which types a context admits *directly* (hard-coded from the manual; used only to enumerate chains cheaply --
@@ -232,14 +265,20 @@ DIRECT_OK = {
     'def-string-naked': _DATA, 'arg-eol': _DATA, 'arg-heredoc': _DATA, 'def-string-eol': _DATA,
     'def-string-heredoc': _DATA, 'ts-eol': _DATA, 'ts-heredoc': _DATA, 'def-list': _DATA, 'def-list-soft': _DATA, 'path-rel': {'path'},
     'path-prefix': {'string', 'path'}, 'path-whole': {'string', 'path'}, 'path-suffix': {'string'},
-    'path-suffix-sym': {'string'}, 'path-suffix-tail': {'string'}, 'creat': {'path'}, 'int': {'string'},
+    'path-suffix-sym': {'string'}, 'path-suffix-tail': {'string'}, 'creat': {'path'}, 'creat-only': {'path'}, 'int': {'string'},
     'ts-ref': {'string', 'text-source'}, 'ts-ref-tt': {'string', 'text-source'}, 'ts-str': _DATA, 'regex': _DATA,
     'repl': _DATA, 'equals': {'string', 'text-source'}, 'integer-matcher': {'integer-matcher'},
     'integer-matcher@': {'integer-matcher'}, 'line-matcher': {'line-matcher'}, 'text-matcher': {'text-matcher'},
     'text-transformer': {'text-transformer'}, 'program': {'program'}, 'file-matcher': {'file-matcher'},
     'files-matcher': {'files-matcher'}, 'files-condition': {'files-condition'}, 'files-source': {'files-source'},
     'pgmname': {'string'}, 'fc-name': {'string'}, 'fs-ts': {'string', 'text-source'},
+    'files-source-eval': {'files-source'}, 'fs-ts-eval': {'string', 'text-source'}, 'fs-name-eval': {'string'},
+    'file-matcher-eval': {'file-matcher'}, 'file-matcher-eval-dir': {'file-matcher'},
+    'files-matcher-eval': {'files-matcher'}, 'files-matcher-eval-sub': {'files-matcher'},
+    'files-condition-eval': {'files-condition'}, 'fc-fm-eval': {'file-matcher'}, 'text-matcher-eval': {'text-matcher'},
+    'integer-matcher-eval': {'integer-matcher'},
 }
+assert set(DIRECT_OK) == set(CONTEXTS)
 
 
 def _link_table():
@@ -279,13 +318,13 @@ def _link_table():
     li['ts:tt'] = ('text-source', {'text-transformer'}, lambda X: text_via(ref(X)))
     li['fm:tm'] = ('file-matcher', {'text-matcher'}, lambda X: ['contents', ref(X)])
     li['fm:fsm'] = ('file-matcher', {'files-matcher'}, lambda X: ['dir-contents', ref(X)])
-    li['fm:glob'] = ('file-matcher', _DATA, lambda X: ['name', N(R(X))])
+    li['fm:glob'] = ('file-matcher', _DATA, lambda X: ['not', ['name', N(R(X))]])
     li['fm:ref'] = ('file-matcher', {'file-matcher'}, lambda X: ['and', [ref(X), ['type', 'file']]])
     li['fsm:fm'] = ('files-matcher', {'file-matcher'}, lambda X: ['any-file', ref(X, 'a')])
     li['fsm:im'] = ('files-matcher', {'integer-matcher'}, lambda X: ['num-files', ref(X)])
     li['fsm:fc'] = ('files-matcher', {'files-condition'}, lambda X: ['fmatches', ref(X)])
     li['fsm:ref'] = ('files-matcher', {'files-matcher'}, lambda X: ['not', ref(X)])
-    li['fc:fm'] = ('files-condition', {'file-matcher'}, lambda X: ['lit', [[N(T('n1')), ref(X)], [N(T('n2')), None]]])
+    li['fc:fm'] = ('files-condition', {'file-matcher'}, lambda X: ['lit', [[N(T('a.txt')), ref(X)], [N(T('sub')), None]]])
     li['fc:name'] = ('files-condition', {'string'}, lambda X: ['lit', [[S(R(X)), None]]])
     li['fc:ref'] = ('files-condition', {'files-condition'}, lambda X: ref(X))
     li['fs:ts'] = ('files-source', {'string', 'text-source'}, lambda X: ['lit', [['file', N(T('n1')),
@@ -403,6 +442,21 @@ def build_matrix(case):
         t, v = std_value(d)
         xdef = [defn(t, X, v)]
     use = CONTEXTS[c](X, 'u1')
+    if c in ASSERT_ONLY:
+        # the reference is evaluated by an assertion, so it stays in [assert]; the definition moves around it
+        if pl == 'before':
+            stmts = _with_ph(xdef, 'assert') + _with_ph(use, 'assert')
+        elif pl == 'earlier-phase':
+            stmts = _with_ph(xdef, 'setup') + _with_ph(use, 'assert')
+        elif pl == 'after':
+            stmts = _with_ph(use, 'assert') + _with_ph(xdef, 'assert')
+        elif pl == 'later-phase':
+            stmts = _with_ph(xdef, 'cleanup') + _with_ph(use, 'assert')
+        elif pl == 'file-reversed':
+            stmts = _with_ph(use, 'assert') + _with_ph(xdef, 'before-assert')
+        else:
+            raise ValueError(pl)
+        return [(('matrix', d, c, pl), _finish(stmts))]
     if pl == 'before':
         stmts = _with_ph(xdef, 'setup') + _with_ph(use, 'setup')
     elif pl == 'earlier-phase':
@@ -496,13 +550,13 @@ def _chain_defs(case):
 
 def build_chain(case):
     """the chain + every use context: one batch program with all uses the model accepts, one program per rejected use
-    (all of them for 1 intermediate; for 2 intermediates the indirect rejections and a rotating sample of 3 direct
+    (all of them for 1 intermediate; for 2 intermediates the indirect rejections and a rotating sample of 2 direct
     mismatches), the bare chain if the chain itself is rejected."""
     defs, last_t = _chain_defs(case)
     last = 'X%d' % (len(defs) - 1)
     key0 = ('chain', case['d']) + tuple(case['links'])
     base = _with_ph(defs[:1], 'setup') + _with_ph(defs[1:2], 'setup') + _with_ph(defs[2:], 'before-assert')
-    use_ph = 'before-assert' if len(defs) == 2 else 'cleanup'
+    use_ph = 'assert'
     v, _info = M.analyse(_finish(base))
     if v != 'accept':
         return [(key0 + ('-',), _finish(base))] if v == 'reject' else []
@@ -523,7 +577,7 @@ def build_chain(case):
             direct_ok = last_t in DIRECT_OK[c]
             if len(defs) == 2 or direct_ok:
                 ret.append((key0 + (c,), _finish(base + use)))
-            elif (j + rot) % 12 == 0 and n_direct < 3:
+            elif (j + rot) % 12 == 0 and n_direct < 2:
                 n_direct += 1
                 ret.append((key0 + (c,), _finish(base + use)))
     if batch:
@@ -766,7 +820,8 @@ class _Gen:
             if r < 0.3:
                 return ['type', self.rng.choice(('file', 'dir'))]
             if r < 0.5:
-                return ['name', self.token(nmax=1, plain=True)]
+                return ['name', N(T(self.rng.choice(('a.txt', 'b', 'sub', 'zz'))))
+                        if self.rng.random() < 0.6 else self.token(nmax=1, plain=True)]
             if r < 0.8:
                 return ['contents', self.tm(d - 1)]
             return ['dir-contents', self.fsm(d - 1)]
@@ -787,8 +842,8 @@ class _Gen:
         return self._boolean('files-matcher', prim, depth)
 
     def _lit_name(self):
-        n = self.pick(('string',)) if self.rng.random() < 0.4 else None
-        return N(T('e_'), R(n)) if n else N(T(self.rng.choice(('n1', 'n2', 'n3'))))
+        n = self.pick(('string',)) if self.rng.random() < 0.35 else None
+        return N(T('e_'), R(n)) if n else N(T(self.rng.choice(('n1', 'n2', 'n3', 'a.txt', 'b', 'sub', 'e', 'd/n4'))))
 
     def fc(self):
         if self.rng.random() < 0.4:
@@ -831,10 +886,17 @@ class _Gen:
             if r < 0.7:
                 return args('act', self.lst() + [self.token() if rng.random() < 0.85 else self.rich()])
             return runst(self.pgm())
-        if ph == 'assert' and r < 0.25:
-            if rng.random() < 0.5:
+        if ph == 'assert' and r < 0.35:
+            r2 = rng.random()
+            if r2 < 0.3:
                 return {'k': 'tm', 'id': self.uid(), 'tm': self.tm(1)}
-            return {'k': 'im', 'im': self.im(1)}
+            if r2 < 0.5:
+                return {'k': 'im', 'im': self.im(1)}
+            if r2 < 0.75:
+                return fmst(self.uid(), rng.choice(('a.txt', 'a.txt', 'b', 'sub', 'e')), self.fm(1))
+            return fsmst(self.uid(), self.fsm(1))
+        if rng.random() < 0.08:
+            return dirst(self.uid(), self.fs(1))
         if r < 0.55:
             return args(self.uid(), [self.token()] + self.lst() + ([self.rich()] if rng.random() < 0.15 else []))
         if r < 0.85:
@@ -928,19 +990,54 @@ def gen_random(rng):
     stmts = [stmts[i] for i in order]
     if rng.random() < 0.05:
         # move one non-act statement to another phase
-        cands = [st for st in stmts if st['ph'] != 'act' and st['k'] not in ('tm', 'im')]
+        cands = [st for st in stmts if st['ph'] != 'act' and st['k'] not in ('tm', 'im', 'fm', 'fsm')]
         if cands:
             rng.choice(cands)['ph'] = rng.choice(NONACT)
             feats.append('moved')
     return _finish(stmts), feats
 
 
+def _cleanup_after_known_crash_is_defined(prog, m, info):
+    """The known defect (see KNOWN) stops a valid program at the first instruction whose REGEX depends on a
+    home-relative path; [cleanup] is executed nevertheless.  If [cleanup] then needs a symbol whose `def` was
+    skipped, Exactly ends in INTERNAL_ERROR there (DESIGN 3/C08, false-alarm guards: outside the quantifier) and the
+    report would no longer show the known mechanism.  Such programs are not generated by the seeded part."""
+    order = M.execution_order(prog)
+    trig = [n for n, i in enumerate(order) if set(info['regex_roots'].get(i, ())) & _HDS_ROOTS]
+    if not trig:
+        return True
+    stmts = prog['stmts']
+    skipped = {stmts[i]['n'] for n, i in enumerate(order)
+               if n > trig[0] and stmts[i]['k'] == 'def' and stmts[i]['ph'] != 'cleanup'}
+    if stmts[order[trig[0]]]['ph'] == 'cleanup' or not skipped:
+        return True
+
+    def needs(name, seen):
+        if name in skipped:
+            return True
+        if name in seen:
+            return False
+        seen.add(name)
+        return any(needs(n, seen) for n, _c, _t in m.env[name].refs)
+
+    for i in order:
+        if stmts[i]['ph'] == 'cleanup' and any(needs(n, set()) for n, _c, _t in M.refs_of_stmt(stmts[i])):
+            return False
+    return True
+
+
 def build_rand(case):
     for attempt in range(40):
         rng = common.rng_for(case['seed'], ID, 'rand', case['i'], attempt)
         prog, feats = gen_random(rng)
-        v, info = M.analyse(prog)
-        if v == 'unspec':
+        m = M.Model()
+        try:
+            info = m.run(prog)
+        except M.Unspecified:
+            continue
+        except M.Rejected:
+            return [(('rand',) + tuple(feats), prog)]
+        if not _cleanup_after_known_crash_is_defined(prog, m, info):
             continue
         return [(('rand',) + tuple(feats), prog)]
     return []
@@ -957,6 +1054,29 @@ import re  # noqa: E402
 _LINE_RE = re.compile(r't\.case, line (\d+)')
 _EFFECT_EVENTS = ('tempfile.mkdtemp', 'os.mkdir', 'subprocess.Popen', 'open-w', 'os.remove', 'os.rename',
                   'shutil.rmtree', 'shutil.copyfile', 'os.symlink', 'os.putenv', 'os.system', 'os.posix_spawn', 'os.fork')
+
+
+_TREE_PY = '''import json, os, sys
+root, out, ident = sys.argv[1], sys.argv[2], sys.argv[3]
+ents = []
+for dp, dns, fns in os.walk(root):
+    for n in dns:
+        ents.append([os.path.relpath(os.path.join(dp, n), root), 'd'])
+    for n in fns:
+        p = os.path.join(dp, n)
+        with open(p, 'rb') as f:
+            ents.append([os.path.relpath(p, root), 'f', f.read().decode('utf-8', 'replace')])
+with open(out, 'a') as f:
+    f.write(json.dumps([ident, sorted(ents)]) + chr(10))
+'''
+
+
+def _read_trees(path):
+    import json
+    if not os.path.exists(path):
+        return []
+    with open(path) as f:
+        return [json.loads(l) for l in f if l.strip()]
 
 
 def setup_worker(ctx):
@@ -992,8 +1112,12 @@ def execute_program(prog, ctx):
     case_file = os.path.join(d, 't.case')
     with open(case_file, 'w', encoding='utf-8', newline='') as f:
         f.write(text)
+    if any(st['k'] == 'dir' for st in prog['stmts']):
+        with open(os.path.join(d, 'tree.py'), 'w') as f:
+            f.write(_TREE_PY)
     r = ses.run([case_file], cwd=d, mode='normal')
     records = probe.read_records(rec)
+    trees = _read_trees(rec + '.tree')
     shown = text.replace(probe.PROBE, 'PROBE').replace(rec, 'REC')
 
     def bad(msg, **detail):
@@ -1021,7 +1145,7 @@ def execute_program(prog, ctx):
             # whatever the verdict: nothing may have been executed
             ctx.count('c08.no_effect_checked')
             effects = [e for e in r.audit if e[0] in _EFFECT_EVENTS]
-            if records or r.calls or r.new_tmp_entries or effects:
+            if records or trees or r.calls or r.new_tmp_entries or effects:
                 bad('program with a symbol error (%s) had effects before/without being rejected: %d probe record(s), '
                     '%d process(es), tmp entries %r, %d file-system event(s)'
                     % (info, len(records), len(r.calls), r.new_tmp_entries, len(effects)),
@@ -1041,12 +1165,22 @@ def execute_program(prog, ctx):
                 det['stopped_at_statement'] = si
                 det['stopped_at_kind'] = prog['stmts'][si]['k']
                 det['stopped_at_regex_roots'] = info['regex_roots'].get(si, [])
-            if len(sds) == 1:
+            if len(sds) == 1 and 'stopped_at_statement' in det:
                 v2, info2 = M.analyse(prog, _roots(d, sds[0]))
                 if v2 == 'accept':
-                    exp = [(i, a, None if s is None else s.encode('utf-8')) for i, a, s in info2['trace']]
+                    # what the reference expects up to the statement that stopped, followed by (a prefix of) the
+                    # [cleanup] phase, which is executed after a failure in an earlier phase
+                    order = M.execution_order(prog)
+                    pos = {si2: n for n, si2 in enumerate(order)}
+                    stop = det['stopped_at_statement']
+                    recs = [((i, a, None if s is None else s.encode('utf-8')), st_i)
+                            for (i, a, s), st_i in zip(info2['trace'], info2['trace_stmt'])]
+                    before = [rc_ for rc_, st_i in recs if pos[st_i] < pos[stop]]
+                    cleanup = [rc_ for rc_, st_i in recs if prog['stmts'][st_i]['ph'] == 'cleanup'] \
+                        if prog['stmts'][stop]['ph'] != 'cleanup' else []
                     obs = [(x['id'], x['argv'], x['stdin']) for x in records]
-                    det['trace_prefix_ok'] = (obs == exp[:len(obs)])
+                    rest = obs[len(before):]
+                    det['trace_prefix_ok'] = (obs[:len(before)] == before and rest == cleanup[:len(rest)])
             bad('valid program is not executed to PASS: got %r/%r' % (ident[:60], r.rc), **det)
             return out
         if len(sds) != 1:
@@ -1077,6 +1211,12 @@ def execute_program(prog, ctx):
             else:
                 msg = 'probe trace differs from the reference at position %d: expected %r, observed %r' % (k, e, o)
             bad(msg, expected_trace=exp, observed_trace=obs, position=k)
+        if info2['trees'] or trees:
+            ctx.count('c08.directory_trees_compared', len(info2['trees']))
+            exp_t = [[i, [list(e) for e in ents]] for i, ents in info2['trees']]
+            if trees != exp_t:
+                bad('directory made from a files-source differs from the reference: expected %r, observed %r'
+                    % (exp_t, trees), expected_trees=exp_t, observed_trees=trees)
         if len(records) == len(info2['cwds']):
             for x, cwd in zip(records, info2['cwds']):
                 if x['cwd'] != cwd:
@@ -1091,6 +1231,22 @@ def execute_program(prog, ctx):
                                                                           for x in records][:12]}
         ses.clean_tmp()
         ses.drop(d)
+
+
+def _is_sample_case(case, key, o):
+    """a handful of fixed cases (and the first long accepted seeded programs) are written out in the evidence"""
+    part = case['part']
+    if part == 'matrix':
+        return (case['d'], case['c'], case['pl']) in (('list', 'def-string', 'before'),
+                                                      ('text-matcher', 'line-matcher', 'later-phase'))
+    if part == 'chain':
+        return (case['d'], tuple(case['links'])) in (('path', ('s:naked', 'p:suffix')), ('list', ('s:heredoc', 'l:elem'))) \
+            and key[-1] in ('-', 'accepted-uses')
+    if part == 'dup':
+        return case.get('name') == 'EXACTLY_TMP' and case.get('d') == 'string'
+    if part == 'rand':
+        return case['i'] < 64 and o['verdict'] == 'accept' and len(o.get('expected_trace') or ()) >= 5
+    return False
 
 
 def run_case(case, ctx):
@@ -1110,9 +1266,7 @@ def run_case(case, ctx):
         for v in o['viol']:
             v['detail']['class'] = list(key) + list(feats)
             res['viol'].append(v)
-        want_sample = (case['part'] == 'rand' and case['i'] % 16 < 2 and len(prog['stmts']) >= 6) or \
-                      (case['part'] == 'chain' and len(case['links']) == 2 and o['verdict'] == 'reject'
-                       and o['info'].kind == 'indirect')
+        want_sample = _is_sample_case(case, key, o)
         if want_sample and 'sample' not in res:
             res['sample'] = {'case': case, 'case_text': o['shown'], 'model_verdict': o['verdict'],
                              'model_reason': o.get('reason'), 'expected_trace': o.get('expected_trace'),
